@@ -10,12 +10,13 @@ from . import c01
 
 PID = "C05"
 TECHNIQUE = "Lean 4 theorems on the compiler model (elaboration = written trees) + exact correspondence of compile() + conservation oracle (multiset and expansion)"
-LEVEL_TEXT = ("The compiler model (elaboration + the inlining pass as written) is tied to compile() by exact equality of results on generated descriptions; "
-              "theorems cover elaboration (each statement's tree has exactly the written steps and leaves in order). Conservation through the inlining pass "
-              "(multiset of nodes, expansion equality with the unfolded description, order of remaining roots) is established per generated description "
-              "by the oracle, which needs no knowledge of when folding happens.")
-LEVEL_NOTE = ("Trusted: Lean kernel; compiler model as far as correspondence exercises it. The preservation theorem for the inlining loop (foldStep) is "
-              "not proved; that part of the property rests on the oracle sweep (search, not proof).")
+LEVEL_TEXT = ("Theorems in Lean about the compiler model, for every description: the ingredient and step nodes of the compiled recipe (outside embedded "
+              "copies) are a permutation of those of the elaborated, unfolded description (compile_nodes_perm: nothing lost or duplicated by the inlining "
+              "pass); every remaining root has the same reference-expanded step/ingredient tree as the elaborated root it descends from (compile_expand); "
+              "the remaining roots of each block are an order-preserving selection of the written statements (compile_roots_order); with C01's "
+              "elab_refines_spec the elaborated trees are exactly the written ones. The model is tied to compile() by exact equality of results.")
+LEVEL_NOTE = ("Trusted: Lean kernel; compiler model as far as correspondence exercises it (generated multi-block descriptions incl. repeated identical "
+              "references and chains of folds). The same three facts are re-checked on the real compile() by the conservation oracle.")
 LEAN_MODULES = ["RecipeGrid.Props.C05"]
 SOURCES = ["recipe_grid/compiler.py", "recipe_grid/recipe.py"]
 RULE = c01.RULE + "; non-trivial here = at least one reference in the description"
